@@ -1187,7 +1187,10 @@ class Fxp():
             Fxp with it's value modified. 
         """
         
-        if isinstance(x, Fxp):
+        if isinstance(x, Fxp) and (getattr(self, 'scaled', False) or getattr(x, 'scaled', False)):
+            # a scaled source or destination: the codes of the two objects do not denote the same values, the source counts by its value
+            self.set_val(x, index=index)
+        elif isinstance(x, Fxp):
             raw_val = x.val
 
             new_val_raw = utils.scale_raw(raw_val, self.n_frac - x.n_frac)
@@ -1820,7 +1823,10 @@ class Fxp():
         return copy.deepcopy(self)
 
     def like(self, x):
-        if isinstance(x, self.__class__):
+        if isinstance(x, self.__class__) and (getattr(self, 'scaled', False) or getattr(x, 'scaled', False)):
+            # (scaled source or template: by value, through the scale / bias map of the new object)
+            return self.__class__(self, like=x)
+        elif isinstance(x, self.__class__):
             new_raw_val = utils.scale_raw(self.val, x.n_frac - self.n_frac)
             # a new object like `x` (own config, status and callbacks), not a shallow copy sharing them with `x`
             return self.__class__(like=x).set_val(new_raw_val, raw=True)
